@@ -95,6 +95,8 @@ def c17_task(n_targets):
         lk = files["Monorail.lock"]
         pos = lk.find(b'":"') + 3
         edits.append(("lock:checksum-digit", "Monorail.lock", lk[:pos] + (b"0" if lk[pos:pos + 1] != b"0" else b"1") + lk[pos + 1:]))
+        edits.append(("lock:checksum-prefix", "Monorail.lock", lk[:pos + 40] + lk[pos + 64:]))
+        edits.append(("lock:checksum-empty", "Monorail.lock", lk[:pos] + lk[pos + 64:]))
         edits.append(("source:deleted", "Monorail.src.json", None))
         edits.append(("lock:deleted", "Monorail.lock", None))
         edits.append(("lock:empty", "Monorail.lock", b""))
@@ -150,11 +152,17 @@ def c18_task(n_targets):
     try:
         ports = (s.port(), s.port())
         val = cfg_value(n_targets, None, ports)
+        val["out_dir"] = "build/mr-out"
+        val["sequences"] = {"dev/all": ["build", "test"]}
         r = sc.Repo(s, "r", val["targets"], ports=False, init_git=False)
         compact = json.dumps(val, separators=(",", ":"))
         pretty = json.dumps(val, indent=2)
         rev = json.dumps({k: val[k] for k in reversed(list(val))}, indent=1)
         sers = [("compact", compact), ("pretty", pretty), ("reversed-keys", rev), ("crlf", pretty.replace("\n", "\r\n")), ("tabs", json.dumps(val, indent="\t"))]
+        # the same strings spelled with JSON escapes
+        sers.append(("escaped-solidus", compact.replace("/", "\\/")))
+        sers.append(("unicode-escapes", compact.replace("p", "\\u0070").replace("t", "\\u0074")))
+        sers.append(("ensure-ascii-pretty", json.dumps(val, indent=2, ensure_ascii=True).replace("/", "\\/")))
         for lead in (1, 63, 64, 65, 100, 4096, 8192, 40000):
             sers.append(("lead%d-spaces" % lead, " " * lead + compact))
             sers.append(("lead%d-newlines" % lead, "\n" * lead + pretty))
